@@ -174,6 +174,10 @@ func event(l *lab.Lab, p *lab.Peer, r *rand.Rand, kind string, rel int, pd strin
 		hdr = fixwire.Fields{lab.F(43, "Y"), lab.F(122, p.TS(time.Minute))}
 	case "N":
 		hdr = fixwire.Fields{lab.F(43, "N")}
+	case "garbled":
+		hdr = fixwire.Fields{lab.F(43, "X")}
+	case "Y+badorig":
+		hdr = fixwire.Fields{lab.F(43, "Y"), lab.F(122, "20240230-25:61:00")}
 	}
 	relc := "at"
 	if rel < 0 {
@@ -317,7 +321,7 @@ func history(c *core.Ctx, r *core.Result, stream string, i int, rng *rand.Rand, 
 			if kind == "seqreset" && rng.Intn(2) == 0 {
 				rel = core.Pick(rng, -6, -4, -3, -2, 3, 6) // Reset mode ignores the message's own number
 			}
-			pd := core.Pick(rng, "", "", "", "Y+orig", "Y", "N", "Y+laterorig")
+			pd := core.Pick(rng, "", "", "", "Y+orig", "Y", "N", "Y+laterorig", "garbled", "Y+badorig")
 			if rel >= 0 && rng.Intn(2) == 0 {
 				pd = ""
 			}
